@@ -227,11 +227,16 @@ class Run(RunBase):
         obs = self.obstacles
         if not obs or not polys:
             return
+        # obstacles are identified by OBJECT (position in the candidate list): a candidate list may hold different
+        # obstacles with one id (e.g. collected from two recordings)
         truth = {}
-        for o in obs:
+        idx = {id(o): k for k, o in enumerate(obs)}
+        for k, o in enumerate(obs):
             raw = geom.exported(geom.raw_shape(o.occupancy_at_time(0).shape))
             for i, (poly, _) in polys.items():
-                truth[(o.obstacle_id, i)] = geom.shape_meets_polygon(raw, poly)
+                truth[(k, i)] = geom.shape_meets_polygon(raw, poly)
+        if len({o.obstacle_id for o in obs}) < len(obs):
+            self.probe("candidate-list-with-repeated-obstacle-id")
         try:
             mapping = self.net.map_obstacles_to_lanelets(obs)
             filt = self.net.filter_obstacles_in_network(obs)
@@ -240,30 +245,32 @@ class Run(RunBase):
             raise Violation(self._sig("obstacle-mapping-raised"),
                             f"get_obstacles / map_obstacles_to_lanelets raised {type(e).__name__}: {e}")
         for i in polys:
-            got_a = {o.obstacle_id for o in mapping.get(i, [])}
-            got_b = {o.obstacle_id for o in per_lanelet[i]}
-            for o in obs:
-                t = truth[(o.obstacle_id, i)]
+            got_a = {idx.get(id(o), -1) for o in mapping.get(i, [])}
+            got_b = {idx.get(id(o), -1) for o in per_lanelet[i]}
+            for k, o in enumerate(obs):
+                t = truth[(k, i)]
                 if t is None:
                     continue
                 for name, got in (("map_obstacles_to_lanelets", got_a), ("Lanelet.get_obstacles", got_b)):
-                    if (o.obstacle_id in got) != t:
+                    if (k in got) != t:
                         raise Violation(self._sig(name),
-                                        f"{name}: obstacle {o.obstacle_id} on lanelet {i} = {o.obstacle_id in got}, "
+                                        f"{name}: obstacle #{k} (id {o.obstacle_id}) on lanelet {i} = {k in got}, "
                                         f"geometric truth {t} (shape {geom.raw_shape(o.occupancy_at_time(0).shape)['t']})")
-        got_f = {o.obstacle_id for o in filt}
-        for o in obs:
-            ts = [truth[(o.obstacle_id, i)] for i in polys]
+        if len({o.obstacle_id for o in obs}) < len(obs):
+            return  # filter_obstacles_in_network de-duplicates by obstacle equality: only checked for unique ids
+        got_f = {idx.get(id(o), -1) for o in filt}
+        for k, o in enumerate(obs):
+            ts = [truth[(k, i)] for i in polys]
             if any(t is True for t in ts):
                 t = True
             elif any(t is None for t in ts):
                 continue
             else:
                 t = False
-            if (o.obstacle_id in got_f) != t:
+            if (k in got_f) != t:
                 raise Violation(self._sig("filter_obstacles_in_network"),
                                 f"filter_obstacles_in_network: obstacle {o.obstacle_id} returned = "
-                                f"{o.obstacle_id in got_f}, geometric truth {t}")
+                                f"{k in got_f}, geometric truth {t}")
         self.probe("obstacle-mapping-checked")
 
     def _panel(self):
@@ -609,7 +616,8 @@ class C06(Property):
                        "restart-deepcopy_net", "restart-pickle_net", "point-inside", "point-in-two-lanelets",
                        "shape-query-rect", "shape-query-circ", "shape-query-poly", "shape-meets-several-lanelets",
                        "obstacle-mapping-checked", "shape-query-via-translate_rotate",
-                       "shape-query-via-rotate_translate_local", "coincident-lanelets", "route:add-with-id-clash", "route:add_lanelet[rtree=False..True]"]
+                       "shape-query-via-rotate_translate_local", "coincident-lanelets", "route:add-with-id-clash", "route:add_lanelet[rtree=False..True]",
+                       "candidate-list-with-repeated-obstacle-id"]
     assumptions = [
         "geometric truth comes from crkit.geom (raw vertices / parameters, shapely predicates on geometry built there) "
         "with a don't-care band: clearance or penetration below 1e-7, and for circles distances in [0.99 r, r] "
@@ -653,7 +661,11 @@ class C06(Property):
         for _ in range(rng.randint(0, 4)):
             role = rng.weighted(["static", "dynamic", "dynamic_nopred"], [3, 2, 1])
             obstacles.append(gen.gen_obstacle(rng, ids.take(), net, role=role, t0=0,
-                                              shape_kinds=("rect", "circ", "poly", "group"), on_road=0.7))
+                                              shape_kinds=("rect", "circ", "poly", "group"), on_road=0.7, offset_p=0.2))
+        if obstacles and rng.chance(0.3):
+            other = gen.gen_obstacle(rng, obstacles[0]["id"], net, role="static", t0=0,
+                                     shape_kinds=("rect", "poly"), on_road=0.9)
+            obstacles.append(other)  # another obstacle carrying the same id (candidate lists are plain lists)
         return {"lanelets": lanelets, "obstacles": obstacles}
 
     def new_run(self, universe, cfg):
